@@ -735,7 +735,9 @@ impl<H: BuildHasher + Default + Clone + std::fmt::Debug> Ex<H> {
     /// Executes one op line and appends its trace line to `line`.
     /// Returns true when the history is dead (a fault was printed).
     pub fn step(&mut self, toks: &[&str], line: &mut String) -> bool {
-        let (fuse, toks): (Option<u64>, &[&str]) = if toks[0] == "fuse" {
+        let (fuse, toks): (Option<u64>, &[&str]) = if toks[0] == "fuse" || toks[0] == "hfuse" {
+            // hfuse: Hash / Eq of items count as callbacks too
+            hash_callbacks(toks[0] == "hfuse");
             (Some(num(tok(toks, 1))), &toks[2.min(toks.len())..])
         } else {
             (None, toks)
@@ -754,6 +756,7 @@ impl<H: BuildHasher + Default + Clone + std::fmt::Debug> Ex<H> {
             let _ = catch_unwind(AssertUnwindSafe(|| self.do_op(toks, &mut out)));
             fuse_disarm();
             clone_callbacks(false);
+            hash_callbacks(false);
             self.out = out;
             return false;
         }
@@ -766,6 +769,7 @@ impl<H: BuildHasher + Default + Clone + std::fmt::Debug> Ex<H> {
         let r = catch_unwind(AssertUnwindSafe(|| self.do_op(toks, &mut out)));
         fuse_disarm();
         clone_callbacks(false);
+        hash_callbacks(false);
         let t = cmps_get();
         let mut dead = false;
         let mut unwound = false;
